@@ -16,7 +16,7 @@ def make_plan(ths, tier, rnd):
     for theory, (sig, stages) in modelcheck.select(ths, PROP, tier):
         api = histories.api_of(sig, modelcheck.module_path(theory))
         n = SIZE.get(theory, 2)
-        for _ in range(200 if thorough else 40):
+        for _ in range(80 if thorough else 40):
             plan.add(theory, histories.random_history(sig, api, rnd, (8 if theory == 'joins' else 0) + rnd.randint(4, 14), n, p_close=0.15, p_until=0.1))
     return plan
 
